@@ -228,7 +228,7 @@ type GWConfig struct {
 	QueryIssuer     string
 	VerifyClientIP  *bool
 	// EntropyFault: crypto/rand.Reader fails while this instance starts
-	EntropyFault bool
+	EntropyFault    bool
 	EnableUserToken bool
 
 	UsernameTemplate string
